@@ -211,16 +211,16 @@ def getitem(it, base, idx, line=None):
                 return lower(seq[i])
             return lower(PV.dvals(t)[pv.kenc(idx)])
         if ctx.branch(PV.is_PTuple(t), 'istuple@%s' % line):
-            return getitem(it, VSeqIter(PV.titems(t)), idx, line)
+            return taint(getitem(it, VSeqIter(PV.titems(t)), idx, line), base)
         if ctx.branch(PV.is_PList(t), 'islist@%s' % line):
-            return getitem(it, VSeqIter(PV.litems(t), 'list'), idx, line)
+            return taint(getitem(it, VSeqIter(PV.litems(t), 'list'), idx, line), base)
         if ctx.branch(PV.is_PStr(t), 'isstr@%s' % line):
             return getitem(it, SStr(PV.s(t)), idx, line)
         if ctx.branch(PV.is_PDict(t), 'isdict@%s' % line):
             v = PV.dvals(t)[pv.kenc(idx)]
             if not ctx.branch(v != pv.PAbsent, 'haskey@%s' % line):
                 it.raise_py('KeyError', 'key', line)
-            return lower(v)
+            return taint(lower(v), base)
         it.raise_py('TypeError', 'object is not subscriptable', line)
     if isinstance(base, VObj):
         gi = it.getattr(base, '__getitem__', line, default=None)
@@ -318,6 +318,7 @@ def dict_load(it, d, k, line=None):
     r = lower(v)
     if isinstance(r, SAny) and not it.spec():
         r.origin = (d, k)
+        r.shared_from = d
     return r
 
 
@@ -851,7 +852,7 @@ def call_method(it, base, name, args, kwargs, line=None):
             it.raise_py('AttributeError', name, line)
         if name in ('get', 'items', 'keys', 'values'):
             if ctx.branch(PV.is_PDict(t), 'isdict@%s' % line):
-                return any_dict_method(it, t, name, args, kwargs, line)
+                return any_dict_method(it, t, name, args, kwargs, line, base)
             it.raise_py('AttributeError', name, line)
         if name in ('count', 'index'):
             if ctx.branch(PV.is_PStr(t), 'isstr@%s' % line):
@@ -1143,11 +1144,20 @@ def dict_method(it, d, name, args, kwargs, line=None):
     raise Unsupported('dict.%s' % name)
 
 
-def any_dict_method(it, t, name, args, kwargs, line):
+def taint(v, src):
+    """values obtained from inside a value that lives in a container keep a reference to that container: an
+    in-place extension of such a (possibly shared) list is a frame violation the by-value model cannot express"""
+    sf = getattr(src, 'shared_from', None)
+    if sf is not None and isinstance(v, SAny):
+        v.shared_from = sf
+    return v
+
+
+def any_dict_method(it, t, name, args, kwargs, line, src=None):
     if name == 'get':
         v = PV.dvals(t)[pv.kenc(args[0])]
         dflt = args[1] if len(args) > 1 else None
-        return lower(z3.If(v == pv.PAbsent, lift(dflt), v))
+        return taint(lower(z3.If(v == pv.PAbsent, lift(dflt), v)), src)
     if name == 'keys':
         return VSeqIter(PV.dkeys(t), 'list')
     raise Unsupported('method %s on an untyped dict value' % name)
